@@ -16,6 +16,7 @@ import traceback
 
 import common
 import c12_gen
+import c12_prep
 import c12_schema
 
 FINGERPRINT_UNION_HASH = "union-hash-order-sensitive"
@@ -83,10 +84,12 @@ class Model:
     self.lines.append(" ".join(tokens))
     self.cbs.append((cb, n_lines))
 
+  preamble = ()
+
   def flush(self):
     if not self.lines:
       return
-    pr = subprocess.run([self.exe], input="\n".join(self.lines) + "\n", capture_output=True, text=True)
+    pr = subprocess.run([self.exe], input="\n".join(list(self.preamble) + self.lines) + "\n", capture_output=True, text=True)
     if pr.returncode != 0:
       raise common.BuildError("model driver failed: " + pr.stderr[-2000:])
     out = pr.stdout.split("\n")
@@ -136,8 +139,22 @@ def roundtrip_real(env, ast, src_path=None, metadata=None):
   """Returns dict(sa, b1, sa2 | error, oracle flags)."""
   out = {}
   expected = prepared_expectation(env, ast)
+  # the preparation model's input, and what the direct preparation oracle needs, taken before SerializeAst
+  # clears the class pointers in place
+  try:
+    snap = c12_prep.snapshot(env, ast)
+  except c12_gen.Untranslatable:
+    snap = None
+  out["prep_in"] = snap
   sa = env.serialize_ast.SerializeAst(ast, src_path=src_path, metadata=metadata)
   out["sa"] = sa
+  out["prep_fail"] = c12_prep.oracle(env, snap, sa) if snap is not None else None
+  if out["prep_fail"] and "class pointer" in out["prep_fail"]:
+    # a surviving pointer makes the object graph cyclic: neither the tokeniser nor the encoder can be run on it
+    out["error"] = out["prep_fail"]
+    out["sa_tokens"] = ["N"]
+    out["prep_in"] = None
+    return out
   out["sa_tokens"] = c12_gen.value_tokens(sa)
   try:
     b1 = env.pickle_utils.Encode(sa)
@@ -177,7 +194,9 @@ def roundtrip_real(env, ast, src_path=None, metadata=None):
 
 def oracle_failure(rt):
   if "error" in rt:
-    return rt["error"]
+    return rt.get("prep_fail") or rt["error"]
+  if rt.get("prep_fail"):
+    return rt["prep_fail"]
   if rt["cache_in_bytes"]:
     return "lookup cache (_name2item) written into the serialised bytes"
   if not rt["ast_eq"]:
@@ -722,6 +741,28 @@ def run(res):
   res.trusted_base += ["Coq extraction (ExtrOcamlBasic, ExtrOcamlString) + OCaml 4.13.1 ocamlopt + "
                        "harness/ocaml/serial_driver.ml", "msgspec %s (C extension)" % env.msgspec.__version__]
   model = Model(exe) if exe else None
+  # the preparation model (Serial/Prepare.v over Canon/Model.v) has its own driver
+  pmodel = None
+  if sch is not None:
+    try:
+      pexe = common.build_extracted("prepare", "Extract/ExtractPrepare.v",
+                                    os.path.join(common.VERIF, "harness", "ocaml", "prepare_driver.ml"), ["prepare_model"])
+      pmodel = Model(pexe)
+    except common.BuildError as e:
+      res.obligation("prepare-model-build", False, str(e)[-1500:])
+  if pmodel:
+    got_tables = []
+    pmodel.ask(["T"], got_tables.extend, n_lines=4)
+    pmodel.flush()
+    # every later batch starts a fresh process: the enum members' str()/repr() are registered first each time
+    pmodel.preamble = [" ".join(cmd) for cmd in c12_prep.enum_commands(env)]
+    want_tables = c12_prep.real_tables(env)
+    res.obligation("tables:visit_class_names(ClearClassPointers,CollectDependencies,ClearLookupCache,CanonicalOrdering)",
+                   got_tables == want_tables,
+                   "model tables equal the live visitors'" if got_tables == want_tables else
+                   "model %r != live %r" % (got_tables, want_tables))
+  env.pmodel = pmodel
+  env.prep_budget = 400000 if thorough else 60000     # tokens per case the preparation model is asked about
   lap("extract+ocamlopt")
   r = common.rng(res.seed, "c12")
   stats = {"asts": 0, "ast_nodes": 0, "neg": 0, "neg_rejected_by_both": 0, "raw": 0, "raw_accepted": 0,
@@ -799,6 +840,8 @@ def run(res):
                       {"kind": "bundle", "seed": res.seed, "rep": rep, "module": mod})
   if model:
     model.flush()
+  if pmodel:
+    pmodel.flush()
   lap("whole-AST round trips")
 
   # ---- 5. node-level: schema violations (and a few borderline conforming values) ----
@@ -812,6 +855,14 @@ def run(res):
   cross_process(env, res, stats)
   lap("cross-process bytes")
 
+  pm = [m for m in mism if m["check"].startswith("prepare")]
+  mism = [m for m in mism if not m["check"].startswith("prepare")]
+  res.obligation("correspondence:prepare-model-vs-SerializeAst", not pm and pmodel is not None,
+                 ("%d disagreements; first: %s" % (len(pm), json.dumps(pm[:3])[:1500])) if pm else
+                 ("model not built" if pmodel is None else
+                  "%d ASTs: model's prepare(input) == real SerializeAst result (%d inside the theorems' domain unit_ok, "
+                  "%d resolved class pointers cleared)" % (stats.get("prep_cases", 0), stats.get("prep_in_domain", 0),
+                                                            stats.get("prep_pointers", 0))))
   res.obligation("correspondence:model-vs-msgspec", not mism and model is not None,
                  ("%d disagreements; first: %s" % (len(mism), json.dumps(mism[:3])[:1500])) if mism else
                  ("model not built" if model is None else "all answers agree"))
@@ -853,6 +904,24 @@ def ast_case(env, res, model, hv, name, ast, replay_obj, must_be_in_g, stats, mi
       kind = fail.split(":")[0][:60]
       small = shrink_case(env, ast, replay_obj, kind)
       res.violation("roundtrip:" + kind, "%s: %s" % (name, fail), small)
+  pmodel = getattr(env, "pmodel", None)
+  snap = rt.get("prep_in")
+  if pmodel and snap is not None and len(snap["tokens"]) + len(vt) <= env.prep_budget:
+    def pcb(ans, _name=name, _fail=fail, _must=must_be_in_g):
+      stats["prep_cases"] = stats.get("prep_cases", 0) + 1
+      if ans[:1] == "1":
+        stats["prep_in_domain"] = stats.get("prep_in_domain", 0) + 1
+      if len(ans) != 2 or ans[1] != "1":
+        mism.append({"case": _name, "check": "prepare(input)==SerializeAst(input)", "model": ans, "expected": "?1", "oracle": _fail})
+      elif _must and ans[0] != "1" and not _fail:
+        mism.append({"case": _name, "check": "prepare: emitted/loaded AST outside unit_ok", "model": ans, "expected": "11", "oracle": _fail})
+    stats["prep_pointers"] = stats.get("prep_pointers", 0) + snap["n_pointers"]
+    sp = src_path or name + ".py"
+    md = metadata or ["m:" + name]
+    pmodel.ask(["Q", hv, str(snap["n_strs"])] + snap["table"] + [c12_gen.hexs(sp), "(", "l"] + [c12_gen.hexs(x) for x in md] + [")"]
+               + snap["tokens"] + vt, pcb)
+  elif snap is not None:
+    stats["prep_skipped_large"] = stats.get("prep_skipped_large", 0) + 1
   if not model:
     return rt
   def note(kind, want):
@@ -1222,7 +1291,15 @@ def resolved_oracles(env, res, pool, ast, stats):
   canonical = ast.Visit(env.pytd_visitors.CanonicalOrderingVisitor())
   before = collect_types(env, canonical)
   eq_before = [[bool(a == b) for b in before] for a in before]
-  dec = env.pickle_utils.DecodeAst(env.pickle_utils.Serialize(ast))
+  try:
+    dec = env.pickle_utils.DecodeAst(env.pickle_utils.Serialize(ast))
+  except Exception as e:  # pylint: disable=broad-except
+    # e.g. a class pointer that survives SerializeAst sends the encoder round a reference cycle
+    env.builtin_stubs.InvalidateCache()
+    res.violation("resolved-ast-does-not-serialise:" + type(e).__name__,
+                  "Serialize/DecodeAst of the resolved pool's AST raises %s: %s" % (type(e).__name__, str(e)[:200]),
+                  {"kind": "eqhash-resolved", "pickle": True})
+    return
   env.builtin_stubs.InvalidateCache()
   after = collect_types(env, dec.ast)
   changed = None
@@ -1485,7 +1562,8 @@ def replay(res, path):
       r2 = common.Result("C12", "quick", 0)
       r2.known = {}
       resolved_oracles(env, r2, pool, ast, {})
-      bad = [v for v in r2.violations if v["fingerprint"] == "eq-changes-across-pickle"]
+      bad = [v for v in r2.violations if v["fingerprint"] == "eq-changes-across-pickle"
+             or v["fingerprint"].startswith("resolved-ast-does-not-serialise")]
       print("equal before pickling <=> equal after decoding:", "VIOLATED: " + bad[0]["what"] if bad else "holds")
       return 1 if bad else 0
     a, b = pool[rp["i"]], pool[rp["j"]]
